@@ -27,7 +27,7 @@ func (c14) Rule() string {
 }
 func (c14) Assumptions() []string {
 	return []string{
-		"a run in which Step panics identically in the traced and the untraced world (effective address beyond 24 bits: unclaimed C08/C02 defects) is discarded and counted, not reported",
+		"a run in which Step panics in both the traced and the untraced world (unclaimed C08: never crashes) is discarded and counted, not reported; a panic in only one of them is reported",
 		"operand renderings are compared after removing blanks and lower-casing; the pinned tree's stack-relative spellings ('$dd,sn', '$(dd,sn),y'), 'jmp' for jml, 'pei $dd', and BRK shown with or without its signature byte are accepted as dialect",
 		"for relative branches the line must contain the destination as a 4-digit hex number; how the raw displacement is shown is free",
 		"bus.Bus.EA / bus.Bus.Write (debug latches) are not part of the compared state",
